@@ -168,7 +168,10 @@ def random_cases(draw):
     for o in ops:
         if "share" in o:
             o["data"] = shared.setdefault(o["share"], o["data"])
-    return {"sids": sids, "ops": ops, "fresh": draw(st.integers(0, 9)) == 0}
+    # one case in four works in another path configuration than the default one (its own root, mapping and templates)
+    others = [c for c in model.paths if c != model.default_config]
+    config = draw(st.sampled_from(others)) if others and draw(st.integers(0, 3)) == 0 else None
+    return {"sids": sids, "ops": ops, "fresh": draw(st.integers(0, 9)) == 0, "config": config}
 
 
 def sidecar_class(path: str) -> str:
@@ -179,10 +182,19 @@ def evaluate(case) -> Outcome:
     from spil import FindInPaths, GetFromPaths, Sid, SpilException, WriteToPaths
     model = _m()
     m = model.sid
-    cname = model.default_config
+    cname = case.get("config") or model.default_config
+    is_default = cname == model.default_config
     pm = model.paths[cname]
     tree.reset(model)
-    out = Outcome(key=case, sample={"sids": case["sids"][:6], "ops": case["ops"][:8]})
+    out = Outcome(key=case, sample={"sids": case["sids"][:6], "ops": case["ops"][:8], "config": cname})
+    out.label("config:" + ("default" if is_default else "other"))
+
+    def exists_of(text):
+        # Sid.exists() asks the configured sources (default path configuration); in another configuration its Finder is asked
+        if is_default:
+            return Sid(text).exists()
+        return FindInPaths(cname).exists(text)
+
     sids = case["sids"]
     info = []
     for s in sids:
@@ -271,13 +283,13 @@ def evaluate(case) -> Outcome:
             if inf2["t"] is None:
                 continue
             ex_model = f"{inf2['t']}:{s2}" in existing
-            if inf2["path"] is not None and getattr(sources(model).get(inf2["t"]), "kind", "") != "paths":
+            if is_default and inf2["path"] is not None and getattr(sources(model).get(inf2["t"]), "kind", "") != "paths":
                 # level answered from constants by the configuration (e.g. the project): reference existence model
                 try:
                     ex_model = any(e[2] == s2 for e in (world.search(s2, "all") or {}).values())
                 except refsearch.RefSpilException:
                     continue
-            okx, ex = call(lambda: Sid(s2).exists())
+            okx, ex = call(lambda: exists_of(s2))
             out.evaluations += 1
             if not okx:
                 out.add(f"C15/exists/raises/{exc_sig(ex)}", f"after {what}: Sid({s2!r}).exists() raised {ex!r}")
@@ -309,7 +321,7 @@ def evaluate(case) -> Outcome:
                     # ancestors with a path exist
                     for tt, ff in gens.ancestors(m, inf2["t"], inf2["f"]):
                         if pm.has_path(tt):
-                            oka, exa = call(lambda: Sid(tt + ":" + m.render(tt, ff)).exists())
+                            oka, exa = call(lambda: exists_of(tt + ":" + m.render(tt, ff)))
                             if not oka or not exa:
                                 out.add("C15/ancestor-of-existing-entity-missing", f"after {what}: {s2!r} exists but ancestor {m.render(tt, ff)!r}.exists() = {exa!r}")
                 # data
@@ -336,7 +348,7 @@ def evaluate(case) -> Outcome:
             e = dict(data.get(sidecar_class(inf2["path"]), {}))
             e["sid"] = inf2["s"]
             exp.append({"json": json.dumps(e, sort_keys=True, default=repr)})
-            if getattr(sources(model).get(inf2["t"]), "kind", "") == "paths":
+            if is_default and getattr(sources(model).get(inf2["t"]), "kind", "") == "paths":
                 calls.append({"k": "exists", "uri": inf2["s"]})
                 exp.append(f"{inf2['t']}:{inf2['s']}" in existing)
         if calls:
